@@ -217,7 +217,91 @@ def rule_e(chk: Check, eng: Engine, parser: ClassInfo, memo: str, getters, sette
                 chk.ok(rule, f.fq, ln, f"memo key `{short(e, 60)}` covers every input of `{short(pc, 40)}`: {used if only is None else sorted(only)}")
 
 
+MEMO_SCOPE = ("fandango.language.symbols", "fandango.language.grammar", "fandango.io.navigation", "fandango.language.tree", "fandango.language.search")
+
+
+def memo_input_rule(chk: Check, eng: Engine, rule: str, scope: tuple = MEMO_SCOPE) -> int:
+    """A value kept on a long-lived object (a symbol, a grammar node, a converter) and handed out again later answers for *every* later call.
+    (a) one-slot memo (`if self.x is None: self.x = f(...)`): the computed value must not depend on a parameter of the method - the slot
+        holds the answer for the first argument only;
+    (b) keyed memo with a hit path (`if k in self.d: return self.e[k]` ... `self.e[k] = v`): every attribute of a parameter object that
+        the stored value is built from must also determine the key."""
+    n = 0
+    for f in eng.ix.all_functions:
+        if not f.module.startswith(scope) or f.cls is None:
+            continue
+        params = [p_ for p_ in f.params() if p_ != "self"]
+        if not params:
+            continue
+        local_defs: dict[str, list[ast.AST]] = {}
+        for a in walk_local(f.node):
+            if isinstance(a, ast.Assign):
+                for t_ in a.targets:
+                    if isinstance(t_, ast.Name):
+                        local_defs.setdefault(t_.id, []).append(a.value)
+
+        def param_deps(e: ast.AST, depth: int = 0) -> set[str]:
+            """`p` / `p.attr` of parameters that expression e depends on (through local definitions)."""
+            out: set[str] = set()
+            for x in ast.walk(e):
+                if isinstance(x, ast.Attribute) and isinstance(x.value, ast.Name) and x.value.id in params:
+                    out.add(f"{x.value.id}.{x.attr}")
+                elif isinstance(x, ast.Name) and x.id in params:
+                    out.add(x.id)
+                elif isinstance(x, ast.Name) and x.id in local_defs and depth < 3:
+                    for d in local_defs[x.id]:
+                        out |= param_deps(d, depth + 1)
+            # `p.attr` subsumes the bare mention of p inside it
+            return {d for d in out if "." in d or not any(o.startswith(d + ".") for o in out)}
+
+        # (a) one-slot memo
+        slot_locals = {t_.id: (self_attr(a.value) or (a.value.args[1].value if isinstance(a.value, ast.Call) and call_name(a.value) == "getattr" and len(a.value.args) >= 2
+                                                      and isinstance(a.value.args[1], ast.Constant) and norm(a.value.args[0]) == "self" else None))
+                       for a in walk_local(f.node) if isinstance(a, ast.Assign) for t_ in a.targets if isinstance(t_, ast.Name)}
+        for i_ in walk_local(f.node):
+            if not (isinstance(i_, ast.If) and isinstance(i_.test, ast.Compare) and len(i_.test.ops) == 1 and isinstance(i_.test.ops[0], ast.Is)
+                    and isinstance(i_.test.comparators[0], ast.Constant) and i_.test.comparators[0].value is None):
+                continue
+            slot = self_attr(i_.test.left) or (slot_locals.get(i_.test.left.id) if isinstance(i_.test.left, ast.Name) else None)
+            if not slot:
+                continue
+            for a in ast.walk(i_):
+                if isinstance(a, ast.Assign) and any(self_attr(t_) == slot for t_ in a.targets):
+                    n += 1
+                    deps = param_deps(a.value)
+                    if deps:
+                        chk.bad(rule, eng.relfile(f), a.lineno, f.fq, f"the one-slot memo `self.{slot}` is filled with `{short(a.value, 50)}`, which depends on the argument(s) {sorted(deps)}",
+                                "the object outlives the call: the value computed for the first argument is served for every later one (e.g. a pattern compiled for text input is "
+                                "applied to bytes input of a later parse)", keyparts=f"one-slot-memo|{slot}")
+                    else:
+                        chk.ok(rule, f.fq, a.lineno, f"one-slot memo `self.{slot}` does not depend on any argument")
+        # (b) keyed memo with a hit path
+        hits = []
+        for i_ in walk_local(f.node):
+            if isinstance(i_, ast.If) and isinstance(i_.test, ast.Compare) and len(i_.test.ops) == 1 and isinstance(i_.test.ops[0], ast.In) and self_attr(i_.test.comparators[0]):
+                rets = [r for r in i_.body if isinstance(r, ast.Return) and isinstance(r.value, ast.Subscript) and self_attr(r.value.value)]
+                for r in rets:
+                    hits.append((i_.test.left, self_attr(r.value.value), r.value.slice))
+        for key_expr, store_attr, _ in hits:
+            for a in walk_local(f.node):
+                if isinstance(a, ast.Assign) and len(a.targets) == 1 and isinstance(a.targets[0], ast.Subscript) and self_attr(a.targets[0].value) == store_attr:
+                    n += 1
+                    kdeps = param_deps(a.targets[0].slice) | param_deps(key_expr)
+                    vdeps = param_deps(a.value)
+                    missing = sorted(d for d in vdeps if d not in kdeps and d.split(".")[0] not in kdeps)
+                    if missing:
+                        chk.bad(rule, eng.relfile(f), a.lineno, f.fq, f"`{short(a, 60)}` is served again for every later key `{short(key_expr, 30)}`, but it is built from {missing}, which the key does not cover",
+                                "the first value stored under a key answers for all later arguments with that key: e.g. the replacement node of a message type keeps the sender and recipient of its first "
+                                "occurrence", keyparts=f"keyed-memo|{store_attr}|" + ",".join(missing))
+                    else:
+                        chk.ok(rule, f.fq, a.lineno, f"keyed memo `self.{store_attr}`: the key covers every input of the stored value")
+    return n
+
+
 def run(chk: Check, eng: Engine) -> None:
+    chk.rule("R12-f", "values memoised on symbols, grammar nodes and converters do not depend on inputs their slot / key does not cover", floor=2)
+    if memo_input_rule(chk, eng, "R12-f") < 2:
+        raise AnalysisError("fewer than two memo idioms found on long-lived objects")
     chk.rule("R12-a", "a parse-forest memo entry is published only after the producing loop is exhausted; only Parser writes the memo", floor=2)
     chk.rule("R12-b", "no tree object is both stored in the memo and handed out (collapse() results alias their argument)", floor=2)
     chk.rule("R12-c", "every IterativeParser attribute written while consuming input is reset by new_parse", floor=5)
